@@ -220,6 +220,8 @@ type Machine struct {
 	concAsserts map[string]string
 	concObs   map[string]string
 	entryFn   *ssa.Function
+	dump      map[string]any
+	invDefs   []invDef
 	preexistBelow int
 	cuts      []cutSpec
 	cutVals   map[string]Value
@@ -275,6 +277,9 @@ func (m *Machine) constInt(v *big.Int, t types.Type) Value {
 }
 
 func (m *Machine) zero(t types.Type) Value {
+	if isBigIntType(t) {
+		return BigV{c: new(big.Int)}
+	}
 	if m.isFieldType(t) {
 		return VField{mkR("const", nil, nil, "0.0")}
 	}
